@@ -597,3 +597,24 @@ T("C13", "twin-recover-server-block-filled-in-the-epilogue", F, _RECOVER_TAIL,
 M("C13", "recover-server-block-filled-in-the-epilogue-unguarded", F, _RECOVER_TAIL,
   "        http_get_server = HttpOptionsBlock()\n        http_get_server.set_config_block(\"output\", DataTransformBlock(steps=c2_recover))\n"
   "        http_get.set_non_empty_config_block(\"server\", http_get_server)\n", "C13.R10")
+
+# ------------------------------------------------------------------------------------------------ wave 7: R14, the STRING terminal
+# against the literals the generator writes (quote + escape-encoded argument + quote is ONE token that ends at its closing
+# quote).  The pattern is read as a prioritised automaton over its own character classes, so other spellings of the same
+# token language - one regular expression, the classic `(\\.|[^"\\])*` loop, [\s\S] for "any character", helper terminals,
+# a greedy run of backslash pairs - are twins; patterns that reject / cut short / overrun a literal are mutants.
+_STRING_T = "STRING: \"\\\"\" /(.|\\n)*?/ /(?<!\\\\)(\\\\\\\\)*?/ \"\\\"\"\n"
+T("C13", "twin-string-terminal-one-regex", G, _STRING_T, "STRING: /\"(.|\\n)*?(?<!\\\\)(\\\\\\\\)*?\"/\n")
+T("C13", "twin-string-terminal-escape-loop", G, _STRING_T, "STRING: /\"(\\\\(.|\\n)|[^\"\\\\])*\"/\n")
+T("C13", "twin-string-terminal-any-char-by-categories", G, _STRING_T, "STRING: \"\\\"\" /[\\s\\S]*?/ /(?<!\\\\)(\\\\\\\\)*?/ \"\\\"\"\n")
+T("C13", "twin-string-terminal-helper-terminals", G, _STRING_T,
+  "_STRING_BODY: /(.|\\n)*?/\n_STRING_TAIL: /(?<!\\\\)(\\\\\\\\)*?/\nSTRING: \"\\\"\" _STRING_BODY _STRING_TAIL \"\\\"\"\n")
+T("C13", "twin-string-terminal-greedy-pairs", G, _STRING_T, "STRING: \"\\\"\" /(.|\\n)*?/ /(?<!\\\\)(\\\\\\\\)*/ \"\\\"\"\n")
+# no escapes at all: the token of "a\"b" ends at the escaped quote
+M("C13", "string-terminal-without-escapes", G, _STRING_T, "STRING: /\"[^\"]*\"/\n", "C13.R14")
+# only the two escapes of the quote and the backslash: the literals with \n, \t, \xNN are no tokens
+M("C13", "string-terminal-escape-loop-quote-and-backslash-only", G, _STRING_T, "STRING: /\"(\\\\[\"\\\\]|[^\"\\\\])*\"/\n", "C13.R14")
+# the escape loop without the quote in the negated class: greedy, the token runs on to the last quote
+M("C13", "string-terminal-escape-loop-admits-bare-quote", G, _STRING_T, "STRING: /\"(\\\\(.|\\n)|[^\\\\])*\"/\n", "C13.R14")
+# a single optional backslash instead of a run of backslash PAIRS before the closing quote: a literal that ends in an escaped backslash is no token
+M("C13", "string-terminal-optional-single-backslash", G, _STRING_T, "STRING: \"\\\"\" /(.|\\n)*?/ /(?<!\\\\)(\\\\)?/ \"\\\"\"\n", "C13.R14")
